@@ -69,6 +69,7 @@ func main() {
 		fs := flag.NewFlagSet("replay", flag.ExitOnError)
 		rabbit := fs.Bool("rabbit", true, "dialect")
 		engine := fs.String("engine", "buntdb", "engine")
+		authMode := fs.String("auth", "", "password check mode: md5 (default) | bcrypt | plain")
 		work := fs.String("work", "", "scratch directory (badger)")
 		settle := fs.Int("settle", 0, "extra settle time per step in ms")
 		fs.Parse(os.Args[2:])
@@ -80,7 +81,7 @@ func main() {
 				ops = append(ops, l)
 			}
 		}
-		cfg := sessionCfg{Rabbit: *rabbit, Engine: *engine}
+		cfg := sessionCfg{Rabbit: *rabbit, Engine: *engine, Auth: *authMode}
 		if *engine == "badger" {
 			cfg.Dir = filepath.Join(*work, fmt.Sprintf("replay-%d", os.Getpid()))
 		}
